@@ -23,7 +23,7 @@ RULE = (
     "ret_arr with generated operands, incl. faulting ones), receive a keep pair (recv_epr + scripted response), the network stack taking a "
     "physical qubit ahead of delivery, subroutines that stay suspended in a wait while other applications run (start / deliver / resume "
     "as separate steps, up to three suspended at once, on two sockets, also into a virtual qubit that is still allocated so that the response has to wait), all through "
-    "serialised messages; invariants after every step.  Thorough adds exhaustive enumeration of all histories to depth 5 "
+    "serialised messages; invariants after every step (incl. the position lookup instructions use for every mapped qubit).  Thorough adds exhaustive enumeration of all histories to depth 5 "
     "over a reduced alphabet.  Non-trivial = >=2 applications alive at once and >=1 stop; distinct by history hash"
 )
 ASSUMPTIONS = [
@@ -362,6 +362,13 @@ class Runner13:
                 if p in seen:
                     raise Failure("physical-qubit-shared", self.case(), f"physical qubit {p} is mapped by application {seen[p][0]} virtual {seen[p][1]} and by application {a} virtual {v}")
                 seen[p] = (a, v)
+                # what an instruction (or a simulator built on the executor) is told when it asks where that qubit lives
+                try:
+                    pos = ex._get_position_in_unit_module(a, v)
+                except Exception as e:
+                    pos = f"{type(e).__name__}"
+                if pos != p:
+                    raise Failure("position-lookup", self.case(), f"application {a} virtual qubit {v} is mapped to physical qubit {p}, but the position lookup answers {pos}")
         if set(seen) & set(self.reserved):
             raise Failure("reserved-qubit-mapped", self.case(), f"physical qubits {sorted(set(seen) & set(self.reserved))} were taken by the network stack for undelivered pairs but are mapped by an application")
         if set(seen) | set(self.reserved) | set(self.deferred) != set(ex._used_physical_qubit_addresses):
